@@ -368,13 +368,13 @@ class Fn:
             init = None
             if len(ds) == 1:
                 init = self._expr_def(ds[0], seen2)
-            return ('mvar', name, init)
+            return ('mvar', name, init, l)
         if len(ds) == 1:
             return self._expr_def(ds[0], seen2)
         if len(ds) == 0:
-            return ('var', name) if name else ('tmp', l)
+            return ('var', name, l) if name else ('tmp', l)
         if name:
-            return ('var', name)
+            return ('var', name, l)
         alts = []
         for d in ds[:6]:
             alts.append(self._expr_def(d, seen2))
@@ -464,7 +464,7 @@ class Fn:
                 if e[0] == 'variant' and e[1][0] == 'call' and e[1][1] == 'branch' and e[2] == 'Continue':
                     e = ('try', e[1][2][0])
                     continue
-                e = ('field', e, nm)
+                e = ('field', e, nm, pr.get('adt'))
             elif k == 'downcast':
                 e = ('variant', e, pr.get('v', str(pr['vi'])))
             elif k == 'index':
@@ -1123,7 +1123,7 @@ def access_path(e):
                 return None
             e = e[2][0]
             continue
-        if k == 'call' and e[2] and e[4].get('name') in ('get', 'get_mut', 'index', 'index_mut', 'get_unchecked'):
+        if k == 'call' and e[2] and e[4].get('name') in ('get', 'get_mut', 'index', 'index_mut', 'get_unchecked', 'next'):
             parts.append('[]')
             e = e[2][0]
             continue
@@ -1280,4 +1280,95 @@ def struct_by_shape(F, pred):
         fields = {x['name']: x['ty'] for x in a['variants'][0]['fields']}
         if pred(fields):
             out.append(p)
+    return out
+
+
+def _ident(x):
+    while x[0] == 'cast':
+        x = x[1]
+    if x[0] in ('var', 'mvar') and len(x) > 2 and isinstance(x[-1], int):
+        return ('L', x[-1])
+    if x[0] in ('var', 'mvar'):
+        return ('N', x[1])
+    if x[0] == 'call' and x[1] not in ('poll', 'branch'):
+        return ('C', x[3])
+    return None
+
+
+def local_defs(f, l):
+    return [f._expr_def(d, frozenset([l])) for d in f.defs(l)]
+
+
+def sharing_calls(f, ident):
+    """[(bb, call_expr)] of calls that are handed the object `ident` (a named local or the result
+    of a constructor call) as an argument"""
+    out = []
+    for bb in real_calls(f):
+        if ident == ('C', bb):
+            continue
+        e = f.expr_call(bb)
+        if e[0] != 'call':
+            continue
+        raw = f.blocks[bb]['t']['args']
+        for i, a in enumerate(e[2]):
+            if _ident(a) == ident and i < len(raw) and _is_mut_ref(f, raw[i]):
+                out.append((bb, e))
+                break
+    return out
+
+
+def _is_mut_ref(f, op, depth=0):
+    """is the raw operand a `&mut` borrow (possibly through copies of temporaries)?"""
+    if depth > 6 or 'c' in op:
+        return False
+    p = op.get('mv') or op.get('cp')
+    if p is None:
+        return False
+    ty = f.locals[p['l']]['ty']
+    if not p.get('p') and ty.startswith('&mut '):
+        return True
+    if p.get('p'):
+        return False
+    ds = f.defs(p['l'])
+    if len(ds) != 1 or ds[0][0] != 'assign':
+        return False
+    rv = ds[0][3]
+    if rv['k'] == 'ref':
+        return bool(rv.get('mut'))
+    if rv['k'] == 'use':
+        return _is_mut_ref(f, rv['op'], depth + 1)
+    if rv['k'] == 'cast':
+        return _is_mut_ref(f, rv['op'], depth + 1)
+    return False
+
+
+def deps(f, e, depth=0, seen=None):
+    """leaf access paths / constants an expression may depend on, following objects (named
+    mutable locals and constructor results) through their initialiser and through every call
+    that is handed the same object (reader.seek(..), read_exact(buf), ...), and multiply-assigned
+    locals through all their definitions."""
+    if seen is None:
+        seen = set()
+    out = set()
+    if depth > 14:
+        return out
+    for x in walk(e):
+        idn = _ident(x) if x[0] in ('var', 'mvar', 'call') else None
+        if x[0] in ('var', 'mvar'):
+            out.add(x[1])
+        elif x[0] == 'field':
+            out.add(show(x))
+        elif x[0] == 'const' and x[2]:
+            out.add(x[2])
+        if idn is None or idn in seen:
+            continue
+        seen.add(idn)
+        if idn[0] == 'L':
+            for d in local_defs(f, idn[1]):
+                out |= deps(f, d, depth + 1, seen)
+        if idn[0] in ('L', 'C'):
+            for bb, ce in sharing_calls(f, idn):
+                # only calls that may mutate: the object is passed, and the call is a method-like
+                for a in ce[2]:
+                    out |= deps(f, a, depth + 1, seen)
     return out
